@@ -447,7 +447,7 @@ func (propC04) Check(r *Run) []Violation {
 			}
 		}
 		for _, d := range dials {
-			if d.Role == "proxy" && hostToName[d.Target] == w.Name && d.Outcome != "ok" && d.At <= w.At && w.At-d.At < 30*time.Second {
+			if d.Role == "olla" && hostToName[d.Target] == w.Name && d.Outcome != "ok" && d.At <= w.At && w.At-d.At < 30*time.Second {
 				backendFailed = true
 			}
 		}
